@@ -209,7 +209,9 @@ func (c *cors) applyHeaders() *cors {
 	for _, header := range c.headers {
 		c.ctx.ResponseHeaders.Set(header.Key, header.Value)
 	}
-	if vary := c.ctx.ResponseHeaders.Peek("Vary"); vary == "*" {
+	// every Vary field line that is already there, not only the last one
+	values, _ := c.ctx.ResponseHeaders.Gets("Vary")
+	if vary := strings.Join(values, ", "); vary == "*" {
 		c.ctx.ResponseHeaders.Set("Vary", "*")
 	} else {
 		if len(c.varys) > 0 {
